@@ -291,12 +291,15 @@ class Registry(asset.Registry, alias='posix'):
         project = package.manifest.name
         release = package.manifest.version
         path = self._path.package(project, release)
-        path.parent.mkdir(parents=True, exist_ok=True)
+        # stage the copy and move it into place at once - a listed release must always hold a complete package
+        staged = path.parent / Path.STAGEDIR / f'{uuid.uuid4()}.{Path.PKGFILE}'
+        staged.parent.mkdir(parents=True, exist_ok=True)
         if package.path.is_dir():
-            shutil.copytree(package.path, path, ignore=lambda *_: {'__pycache__'})
+            shutil.copytree(package.path, staged, ignore=lambda *_: {'__pycache__'})
         else:
             assert package.path.is_file(), 'Expecting file package'
-            path.write_bytes(package.path.read_bytes())
+            staged.write_bytes(package.path.read_bytes())
+        staged.rename(path)
 
     def read(
         self,
